@@ -126,6 +126,7 @@ Section ExprInd.
   Hypothesis Hthen : forall n, P (ETheN n).
   Hypothesis Hacc : forall n x, P x -> P (EAcc n x).
   Hypothesis Hkey : forall n, P (EKey n).
+  Hypothesis Hfield : forall x, P x -> P (EField x).
   Hypothesis Hnil : Q [].
   Hypothesis Hcons : forall x l, P x -> Q l -> Q (x :: l).
   Fixpoint expr_ind2 (e : expr) : P e :=
@@ -143,6 +144,7 @@ Section ExprInd.
     | ETheN n => Hthen n
     | EAcc n x => Hacc n x (expr_ind2 x)
     | EKey n => Hkey n
+    | EField x => Hfield x (expr_ind2 x)
     end.
 End ExprInd.
 
@@ -798,6 +800,22 @@ Proof.
   destruct Hs as [r2 Hs]. exists r2. erewrite run_ops_step; [| lia | exact Hs]. f_equal. lia.
 Qed.
 
+Lemma exec_field en x : exec_spec en x -> wf_e en x -> exec_spec en (EField x).
+Proof.
+  intros IHx Hx d off len a fuel r m Hag Hc Hoff Hlen.
+  cbn [compile_e ninstr] in *. rewrite !zlen_app, zlen_cons, zlen_nil in *.
+  apply code_at_app in Hc. destruct Hc as [Hcx Hco]. pose proof (zlen_nonneg (compile_e x)).
+  replace (ninstr x + 1 + fuel)%nat with (ninstr x + (1 + fuel))%nat by lia.
+  destruct (IHx d off len a (1 + fuel)%nat r m Hag Hcx ltac:(lia) ltac:(lia)) as [r1 E1]. rewrite E1.
+  set (m1 := after_e en a x m). set (a1 := a + zlen (compile_e x)) in *.
+  assert (Hs : step d a1 r1 m1 = Ok (a1 + 1, r1, after_e en a (EField x) m)).
+  { eapply step_1 with (proc := "UnaryOperationOpcode") (attr := "field") (oc := OUnary "field");
+      [exact Hco | vm_compute; reflexivity | reflexivity |].
+    intros p1 p2. cbn [process]. unfold pop. subst m1. rewrite after_e_stack. cbn [bind].
+    destruct m as [st [? ? ? ? ? ? ?] cx]; reflexivity. }
+  exists r1. cbn [Nat.add]. erewrite run_ops_step; [| subst a1; lia | exact Hs]. f_equal. subst a1. lia.
+Qed.
+
 (* the core of C02: any expression tree, any depth, any width *)
 Theorem exec_e en e : wf_e en e -> exec_spec en e.
 Proof.
@@ -816,6 +834,7 @@ Proof.
   - intros n Hwf. apply exec_then. exact Hwf.
   - intros n x IHx Hwf. apply exec_acc; [apply IHx; apply Hwf | exact Hwf].
   - intros n Hwf. apply exec_key. exact Hwf.
+  - intros x IHx Hwf. apply exec_field; auto.
   - intros _. apply exec_args_nil.
   - intros x l IHx IHl [Hx Hl]. apply exec_args_cons; auto.
 Qed.
